@@ -1,6 +1,6 @@
 (* C06 — the SML parser is total and all-or-nothing (partial: time and the
    Go stack are the runtime's; the worker subprocess observes them). *)
-From Secs Require Import Ast Fill Msg Lexer Parser SmlNumbers SmlProofs.
+From Secs Require Import Ast Fill Msg Lexer Parser SmlNumbers SmlProofs LexProofs ParseProofs.
 Open Scope Z_scope.
 
 (* if any error is reported no message is returned *)
@@ -9,22 +9,50 @@ Theorem C06_all_or_nothing : forall alnum floats input,
 Proof. exact all_or_nothing. Qed.
 Print Assumptions C06_all_or_nothing.
 
+(* if none is reported the parser has read every token up to EOF: no part of
+   the input is silently dropped, so every message of the input is returned *)
+Theorem C06_nothing_dropped : forall alnum floats input,
+  r_errs (sml_parse alnum floats input) = [] -> typ_is (peek (sml_final alnum floats input)) TEOF = true.
+Proof. exact no_silent_stop. Qed.
+Print Assumptions C06_nothing_dropped.
+
+(* the result is a projection of that final state *)
+Theorem C06_final_state : forall alnum floats input,
+  r_msgs (sml_parse alnum floats input) = (match errs (sml_final alnum floats input) with [] => msgs (sml_final alnum floats input) | _ => [] end) /\
+  r_crashed (sml_parse alnum floats input) = crashed (sml_final alnum floats input).
+Proof. intros. split; reflexivity. Qed.
+Print Assumptions C06_final_state.
+
+(* no panic escapes: the one panic site outside parseDataItem's recover — the
+   message constructor — is never reached with arguments it refuses, for any
+   input: the header lexer never lets a Unicode space into a message name, a
+   direction token is one of the three directions, stream and function codes
+   are clamped, W is dropped on an even function *)
+Theorem C06_no_crash : forall alnum floats input, r_crashed (sml_parse alnum floats input) = false.
+Proof. exact no_crash. Qed.
+Print Assumptions C06_no_crash.
+
+(* the lexer does not hang: every step consumes input, so with the fuel
+   |input| + 2 the fuel is never used up — the token stream always ends in EOF
+   or an error token, and no token before the end is one *)
+Theorem C06_lexer_terminates : forall alnum input, terminated (lex_all alnum input).
+Proof. exact lex_all_terminated. Qed.
+Print Assumptions C06_lexer_terminates.
+
+(* one message: a refusal always adds an error (so the parser's fuel is never
+   used up silently), an acceptance consumes at least one token (so the loop ends) *)
+Theorem C06_progress : forall floats st, pinv st -> msg_outcome st (parse_message floats st).
+Proof. exact parse_message_progress. Qed.
+Print Assumptions C06_progress.
+
 (* every position the parser reports lies inside the input: 1 <= line <= number of lines, column >= 1 *)
 Theorem C06_positions : forall input off,
   let '(l, c) := linecol input off in 1 <= l <= 1 + Z.of_nat (count_lf input) /\ 1 <= c.
 Proof. exact linecol_bounds. Qed.
 Print Assumptions C06_positions.
 
-(* the lexer and the parser are total functions of the input: every function of
-   the model is structurally recursive on a fuel bounded by the input length
-   (lex_all: |s| + 2, parse_item: the number of tokens), so they terminate on
-   every input; the only non-returning outcome of the Go code — a panic outside
-   parseDataItem's recover — is the explicit outcome [r_crashed] of the model *)
-Theorem C06_terminates : forall alnum floats input, exists r, sml_parse alnum floats input = r.
-Proof. intros. eexists. reflexivity. Qed.
-Print Assumptions C06_terminates.
-
-(* C06_no_crash_partial: r_crashed (sml_parse ...) = false for every input needs
-   the lexer invariant "a message-name token contains no Unicode space", whose
-   proof over the UTF-8 decoder is not finished; it is decided by the token-soup
-   stream (suite C06, worker subprocess) and the correspondence of the outcome. *)
+(* premises are satisfiable: the state sml.Parse starts from meets the invariant *)
+Example C06_start : forall alnum input,
+  pinv {| toks := filter (fun t => negb (typ_is t TComment)) (lex_all alnum input);
+          names := []; ecount := 0; errs := []; warns := []; msgs := []; crashed := false |}.
+Proof. exact sml_start_pinv. Qed.
